@@ -1,3 +1,4 @@
+import re
 """C01 Save/reload stability (structural necessary conditions; see DESIGN.md section 3, C01)"""
 from . import genrules, textrules, plumbing
 
@@ -17,4 +18,27 @@ def run(chk):
     c05.r05_adjacent(chk, rule="R01-adjacent")
     writertab.compare(chk, "R01-writer", floor=48)
     writertab.compare_ifdata(chk, "R01-ifdata-writer", floor=22)
+    # the hand-written equality of IF_DATA trees: every comparison of two payloads is an equality (a `!=` in one arm makes equal
+    # values unequal and unequal values equal for that variant, so a reloaded file compares unequal)
+    from . import mir
+    from .common import Finding
+    prog = mir.prog()
+    neq = 0
+    for fid, b in sorted(prog.bodies.items()):
+        if re.search(r"a2ml::GenericIfData(TaggedItem)? as std::cmp::PartialEq>::eq$", mir.strip_generics(fid)) or (b.trait_item == "std::cmp::PartialEq::eq" and "a2ml::GenericIfData" in (b.impl_of or "")):
+            for bi, si, st in b.stmts():
+                if st["k"] == "assign" and st["rv"]["r"] == "bin" and st["rv"]["op"] in ("Ne", "Lt", "Gt", "Le", "Ge"):
+                    neq += 1
+                    chk.add(Finding("R01-eq", "R01-eq::ifdata::%s::%s" % (mir.strip_generics(fid), st["rv"]["op"]), "%s compares two payloads with %s instead of equality" % (fid, st["rv"]["op"]), b.where(st["ln"])))
+                elif st["k"] == "assign" and st["rv"]["r"] == "bin" and st["rv"]["op"] == "Eq":
+                    neq += 1
+                elif st["k"] == "assign" and st["rv"]["r"] == "un" and st["rv"]["op"] == "Not":
+                    chk.add(Finding("R01-eq", "R01-eq::ifdata::%s::Not" % mir.strip_generics(fid), "%s negates a comparison result" % fid, b.where(st["ln"])))
+            for bi, t in b.calls():
+                nm = mir.strip_generics((t.get("res") or "").lstrip("?"))
+                if nm.endswith("::ne"):
+                    chk.add(Finding("R01-eq", "R01-eq::ifdata::%s::ne" % mir.strip_generics(fid), "%s compares two payloads with != instead of ==" % fid, b.where(t["ln"])))
+                elif nm.endswith("::eq"):
+                    neq += 1
+    chk.rule("R01-eq-ifdata", "payload comparisons in the PartialEq impls of GenericIfData / GenericIfDataTaggedItem that are equalities", neq, floor=10)
     chk.assumptions += ["not decided: equality of the reloaded model and byte identity of the text for all inputs (runtime values)"]
